@@ -65,6 +65,16 @@ fn receiver_edge(e: &Value, rows: &mut Rows) -> u64 {
         for d in &all {
             let k = d["k"].as_i64().unwrap();
             let seq = d["seq"].as_u64().unwrap() as u16;
+            if d["op"].as_str() == Some("reset") {
+                // resynchronise on datagram k: a new epoch for the contract
+                rb.reset(seq);
+                delivered.clear();
+                arrived.clear();
+                carried.clear();
+                excused.clear();
+                last_out = Vec::new();
+                continue;
+            }
             let reds: Vec<i64> = d["red"].as_array().unwrap().iter().map(|x| x.as_i64().unwrap()).collect();
             let exp_before = rb.expected_seq() as i64;
             // sequence numbers of what this datagram carries: itself and, oldest first, its predecessors
